@@ -29,6 +29,41 @@ def canonicalise(tree: ast.AST) -> None:
       not not X                ->  X
       not (a == b) / (a in b) / (a is b) and their negative forms -> the single comparison
     Line numbers stay those of the original nodes."""
+    # private constants are read as their value: `_NAME = "literal"` at module or class level (bound once, never
+    # re-bound) replaces `_NAME` / `self._NAME` / `cls._NAME` / `Class._NAME`; then `"..{a}..".format(a=x)` is
+    # read as the f-string it abbreviates
+    _inline_private_constants(tree)
+    for node in ast.walk(tree):
+        for fld, val in ast.iter_fields(node):
+            if isinstance(val, ast.Call):
+                new = _format_to_fstring(val)
+                if new is not val:
+                    setattr(node, fld, new)
+            elif isinstance(val, list):
+                for i, v in enumerate(val):
+                    if isinstance(v, ast.Call):
+                        new = _format_to_fstring(v)
+                        if new is not v:
+                            val[i] = new
+    # membership views: a local bound once to set(X) / frozenset(X) / X.union(Y) / X | Y that is only ever the
+    # right operand of `in` / `not in` is replaced by what it is a view of, and
+    #   x in set(X) -> x in X        x in A.union(B) / x in (A | B) -> x in A or x in B
+    # (membership in a list, tuple or set of the same elements is the same question)
+    for fn_ in ast.walk(tree):
+        if isinstance(fn_, (ast.FunctionDef, ast.AsyncFunctionDef)):
+            _propagate_membership_views(fn_)
+    for node in ast.walk(tree):
+        for fld, val in ast.iter_fields(node):
+            if isinstance(val, ast.Compare):
+                new = _expand_membership(val)
+                if new is not val:
+                    setattr(node, fld, new)
+            elif isinstance(val, list):
+                for i, v in enumerate(val):
+                    if isinstance(v, ast.Compare):
+                        new = _expand_membership(v)
+                        if new is not v:
+                            val[i] = new
     # x = x <op> e  ->  x <op>= e   (plain names; the two differ only in whether a mutable left operand is
     # updated in place, which no rule relies on)
     for node in ast.walk(tree):
@@ -200,6 +235,201 @@ def canonicalise(tree: ast.AST) -> None:
             if isinstance(t, ast.UnaryOp) and isinstance(t.op, ast.Not):
                 node.test = t.operand
                 node.body, node.orelse = node.orelse, node.body
+
+
+def _inline_private_constants(tree: ast.AST) -> None:
+    if not isinstance(tree, ast.Module):
+        return
+    stores: dict = {}
+    for n in ast.walk(tree):
+        if isinstance(n, ast.Name) and isinstance(n.ctx, (ast.Store, ast.Del)):
+            stores[n.id] = stores.get(n.id, 0) + 1
+        elif isinstance(n, ast.Attribute) and isinstance(n.ctx, (ast.Store, ast.Del)):
+            stores[n.attr] = stores.get(n.attr, 0) + 1
+        elif isinstance(n, ast.arg):
+            stores[n.arg] = stores.get(n.arg, 0) + 1
+    def _const_assign(st):
+        if isinstance(st, ast.Assign) and len(st.targets) == 1 and isinstance(st.targets[0], ast.Name):
+            nm, val = st.targets[0].id, st.value
+        elif isinstance(st, ast.AnnAssign) and isinstance(st.target, ast.Name) and st.value is not None:
+            nm, val = st.target.id, st.value
+        else:
+            return None
+        if nm.startswith("_") and not nm.startswith("__") and isinstance(val, ast.Constant) and isinstance(val.value, (str, int)) and not isinstance(val.value, bool) and stores.get(nm, 0) == 1:
+            return nm, val
+        return None
+    mod_consts: dict = {}
+    for st in tree.body:
+        r = _const_assign(st)
+        if r:
+            mod_consts[r[0]] = r[1]
+    cls_consts: dict = {}
+    for st in tree.body:
+        if isinstance(st, ast.ClassDef) and not any((isinstance(d, ast.Name) and d.id == "dataclass") or (isinstance(d, ast.Call) and isinstance(d.func, ast.Name) and d.func.id == "dataclass") for d in st.decorator_list):
+            for s2 in st.body:
+                r = _const_assign(s2)
+                if r:
+                    cls_consts[r[0]] = (st.name, r[1])
+    if not mod_consts and not cls_consts:
+        return
+    for node in ast.walk(tree):
+        for fld, val in ast.iter_fields(node):
+            items = [(None, val)] if isinstance(val, ast.AST) else list(enumerate(val)) if isinstance(val, list) else []
+            for i, v in items:
+                new = None
+                if isinstance(v, ast.Name) and isinstance(v.ctx, ast.Load) and v.id in mod_consts:
+                    new = ast.copy_location(ast.Constant(value=mod_consts[v.id].value), v)
+                elif isinstance(v, ast.Attribute) and isinstance(v.ctx, ast.Load) and v.attr in cls_consts and isinstance(v.value, ast.Name) and v.value.id in ("self", "cls", cls_consts[v.attr][0]):
+                    new = ast.copy_location(ast.Constant(value=cls_consts[v.attr][1].value), v)
+                if new is not None:
+                    if i is None:
+                        setattr(node, fld, new)
+                    else:
+                        val[i] = new
+
+
+def _format_to_fstring(c: ast.Call) -> ast.AST:
+    """'..{a}..{b!r}..'.format(a=x, b=y)  ->  f'..{x}..{y!r}..'   (named or auto-numbered simple fields only)"""
+    import string as _string
+
+    if not (isinstance(c.func, ast.Attribute) and c.func.attr == "format" and isinstance(c.func.value, ast.Constant) and isinstance(c.func.value.value, str)):
+        return c
+    if any(isinstance(a, ast.Starred) for a in c.args) or any(k.arg is None for k in c.keywords):
+        return c
+    kws = {k.arg: k.value for k in c.keywords}
+    parts = []
+    auto = 0
+    try:
+        fields = list(_string.Formatter().parse(c.func.value.value))
+    except ValueError:
+        return c
+    for lit, field, spec, conv in fields:
+        if lit:
+            parts.append(ast.Constant(value=lit))
+        if field is None:
+            continue
+        if spec:
+            return c
+        if field == "":
+            if auto >= len(c.args):
+                return c
+            val = c.args[auto]
+            auto += 1
+        elif field.isdigit():
+            if int(field) >= len(c.args):
+                return c
+            val = c.args[int(field)]
+        elif field in kws:
+            val = kws[field]
+        else:
+            return c
+        parts.append(ast.FormattedValue(value=copy.deepcopy(val), conversion=ord(conv) if conv else -1, format_spec=None))
+    out = ast.JoinedStr(values=parts)
+    return ast.fix_missing_locations(ast.copy_location(out, c))
+
+
+def _view_parts(e: ast.AST):
+    """[X, Y, ..] when e is a membership view of those containers: set(X), frozenset(X), X.union(Y), X | Y"""
+    if isinstance(e, ast.Call) and isinstance(e.func, ast.Name) and e.func.id in ("set", "frozenset") and len(e.args) == 1 and not e.keywords and isinstance(e.args[0], (ast.Name, ast.Attribute, ast.Call)):
+        inner = _view_parts(e.args[0])
+        return inner if inner is not None else ([e.args[0]] if isinstance(e.args[0], (ast.Name, ast.Attribute)) else None)
+    if isinstance(e, ast.Call) and isinstance(e.func, ast.Attribute) and e.func.attr == "union" and e.args and not e.keywords:
+        parts = []
+        for x in [e.func.value] + list(e.args):
+            p = _view_parts(x)
+            if p is None:
+                if not isinstance(x, (ast.Name, ast.Attribute)):
+                    return None
+                p = [x]
+            parts += p
+        return parts
+    if isinstance(e, ast.BinOp) and isinstance(e.op, ast.BitOr):
+        parts = []
+        for x in (e.left, e.right):
+            p = _view_parts(x)
+            if p is None:
+                if not isinstance(x, (ast.Name, ast.Attribute)):
+                    return None
+                p = [x]
+            parts += p
+        return parts
+    return None
+
+
+def _expand_membership(c: ast.Compare) -> ast.AST:
+    if len(c.ops) != 1 or not isinstance(c.ops[0], (ast.In, ast.NotIn)):
+        return c
+    parts = _view_parts(c.comparators[0])
+    if not parts:
+        return c
+    if not isinstance(c.left, (ast.Name, ast.Attribute, ast.Constant)) and len(parts) > 1:
+        return c  # the left operand would be evaluated several times
+    tests = [ast.copy_location(ast.Compare(left=copy.deepcopy(c.left), ops=[type(c.ops[0])()], comparators=[copy.deepcopy(p)]), c) for p in parts]
+    if len(tests) == 1:
+        return tests[0]
+    op = ast.Or() if isinstance(c.ops[0], ast.In) else ast.And()
+    return ast.copy_location(ast.BoolOp(op=op, values=tests), c)
+
+
+def _propagate_membership_views(fn_: ast.AST) -> None:
+    stores: dict = {}
+    for n in ast.walk(fn_):
+        if isinstance(n, ast.Name) and isinstance(n.ctx, (ast.Store, ast.Del)):
+            stores[n.id] = stores.get(n.id, 0) + 1
+        elif isinstance(n, ast.arg):
+            stores[n.arg] = stores.get(n.arg, 0) + 1
+        elif isinstance(n, (ast.Global, ast.Nonlocal)):
+            for x in n.names:
+                stores[x] = stores.get(x, 0) + 2
+    parents: dict = {}
+    for n in ast.walk(fn_):
+        for ch in ast.iter_child_nodes(n):
+            parents[id(ch)] = n
+    for holder in ast.walk(fn_):
+        for fld in ("body", "orelse", "finalbody"):
+            seq = getattr(holder, fld, None)
+            if not (isinstance(seq, list) and seq and isinstance(seq[0], ast.stmt)):
+                continue
+            for st in list(seq):
+                if not (isinstance(st, ast.Assign) and len(st.targets) == 1 and isinstance(st.targets[0], ast.Name)):
+                    continue
+                t = st.targets[0].id
+                parts = _view_parts(st.value)
+                if not parts or stores.get(t, 0) != 1:
+                    continue
+                roots = {x.id for p in parts for x in ast.walk(p) if isinstance(x, ast.Name)}
+                if any(stores.get(r, 0) > 1 for r in roots):
+                    continue  # what it is a view of is re-bound somewhere: leave it alone
+                uses = [n for n in ast.walk(fn_) if isinstance(n, ast.Name) and n.id == t and isinstance(n.ctx, ast.Load)]
+                ok_ = bool(uses)
+                pure_methods = ("intersection", "union", "difference", "isdisjoint", "issubset", "issuperset", "symmetric_difference", "copy")
+                for u in uses:
+                    par = parents.get(id(u))
+                    member = isinstance(par, ast.Compare) and len(par.ops) == 1 and isinstance(par.ops[0], (ast.In, ast.NotIn)) and par.comparators[0] is u
+                    receiver = isinstance(par, ast.Attribute) and par.value is u and par.attr in pure_methods and isinstance(parents.get(id(par)), ast.Call) and parents[id(par)].func is par
+                    if not (member or receiver):
+                        ok_ = False
+                # the containers must not be mutated in place anywhere in the function (the view is a snapshot)
+                for n in ast.walk(fn_):
+                    if isinstance(n, ast.Call) and isinstance(n.func, ast.Attribute) and isinstance(n.func.value, ast.Name) and n.func.value.id in roots and n.func.attr in ("append", "add", "extend", "update", "remove", "discard", "pop", "clear", "insert", "difference_update", "intersection_update"):
+                        ok_ = False
+                    if isinstance(n, (ast.Assign, ast.AugAssign, ast.Delete)):
+                        for tg in (n.targets if isinstance(n, (ast.Assign, ast.Delete)) else [n.target]):
+                            if isinstance(tg, ast.Subscript) and isinstance(tg.value, ast.Name) and tg.value.id in roots:
+                                ok_ = False
+                            if isinstance(n, ast.AugAssign) and isinstance(tg, ast.Name) and tg.id in roots:
+                                ok_ = False
+                if not ok_:
+                    continue
+                for u in uses:
+                    par = parents[id(u)]
+                    if isinstance(par, ast.Compare):
+                        par.comparators[0] = copy.deepcopy(st.value)
+                    else:
+                        par.value = copy.deepcopy(st.value)
+                seq.remove(st)
+                if not seq:
+                    seq.append(ast.copy_location(ast.Pass(), st))
 
 
 def _is_keys_call(e: ast.AST) -> bool:
